@@ -92,7 +92,7 @@ func tokenClassAt(file []byte, x int) string {
 			j++
 		}
 		switch w := string(file[x:j]); w {
-		case "contains", "and", "or", "not":
+		case "contains", "and", "or", "not", "default":
 			return "word-operator"
 		}
 		return "name"
@@ -108,7 +108,7 @@ func tokenClassAt(file []byte, x int) string {
 
 // disagreementClass refines a line/column disagreement into a narrow class.
 //
-//	inside:<token>  line:column denote a byte inside (Start,End], where <token> starts
+//	inside:<group>  line:column denote a byte inside (Start,End], where a token of <group> starts
 //	before:<delta>, after:<delta>  line:column denote a byte before Start / after End
 //	                (delta in lines if the line differs, else in columns, bucketed)
 //	nowhere         the file has no such line:column
@@ -116,8 +116,19 @@ func disagreementClass(d Disagreement, p Pos, file []byte) string {
 	rel := Relation(file, p)
 	switch rel {
 	case "inside":
+		// The class does not depend on whether the token is on the line of Start
+		// or on a later one; tokens are grouped into operator-like tokens (where a
+		// node's own operator, dot, parenthesis, bracket or brace is) and operand
+		// starts (inner expression of a parenthesized expression).
 		x, _ := OffsetOf(file, p.Line, p.Column)
-		return d.Kind + ":inside:" + tokenClassAt(file, x)
+		switch tc := tokenClassAt(file, x); tc {
+		case "operator", "word-operator", "dot", "paren", "bracket", "brace":
+			return "inside:operator"
+		case "name", "number", "quote":
+			return "inside:operand"
+		default:
+			return "inside:" + tc
+		}
 	case "nowhere":
 		return d.Kind + ":nowhere"
 	}
@@ -165,7 +176,7 @@ func judgeError(be *scriggo.BuildError, fsys *bytesgen.RecFS) (keys []string, de
 		if d.Kind == "line" || d.Kind == "column" {
 			k = disagreementClass(d, p, content)
 		}
-		if strings.Contains(k, ":inside:") {
+		if strings.HasPrefix(k, "inside:") {
 			// systematic: keyed by the token the line:column point at, not by the message
 			keys = append(keys, core.SigJoin(typ, k))
 		} else {
